@@ -114,11 +114,19 @@ impl<'a, I: Iterator<Item = Item>, F: StreamFilter + 'a> CompactionStream<'a, I,
     }
 
     /// Drains the remaining versions of the given key.
+    ///
+    /// Unless tombstones are evicted (last level), the drain stops in front of a weak tombstone:
+    /// it may still shadow a value in a lower level, so it only goes together with
+    /// the value it deletes (or when reaching the last level).
     fn drain_key(&mut self, key: &UserKey) -> crate::Result<()> {
+        let keep_weak_tombstones = !self.evict_tombstones;
+
         loop {
             let Some(next) = self.inner.next_if(|kv| {
                 if let Ok(kv) = kv {
-                    let expired = kv.key.user_key == key;
+                    let expired = kv.key.user_key == key
+                        && !(keep_weak_tombstones
+                            && kv.key.value_type == ValueType::WeakTombstone);
 
                     if expired {
                         if let Some(watcher) = &mut self.dropped_callback {
